@@ -39,7 +39,16 @@ def run(tier, work):
             pl = places[gi] if style == "placed" else None
             dl, info = K.render(gr, K.PLAIN, style="normal" if style == "placed" else style, place=pl)
             ql, exp = K.query_lines(gr, K.PLAIN, place=pl)
-            text = "\n".join(dl + ql) + "\n"
+            # factories: a top-level method and a method of a class in its own namespace, each returning an instance of the
+            # graph's first class (which may live in another namespace): hover on their calls must show THEIR signature
+            k1 = gr["shape"][0]
+            ar1 = gr["q"][k1]["arity"]
+            newexpr = "%s.new%s" % (K.path_of(k1, K.PLAIN, pl), "(1)" if ar1 == 1 else "")
+            fl = ["def vf_make", "  " + newexpr, "end", "vf_obj = vf_make",
+                  "module Vfh", "  class Factory", "    def build", "      " + newexpr, "    end", "  end", "end",
+                  "vf_built = Vfh::Factory.new.build"]
+            factory_rows = {("vf_make", ""): len(dl) + len(ql) + 4, ("build", "Factory"): len(dl) + len(ql) + 12}
+            text = "\n".join(dl + ql + fl) + "\n"
             defs = expectations(gr, info["def_rows"])
             jobs.append({"files": {"t.rb": text}, "args": ["t.rb", "-i"]})
             meta.append(("hints", gi, style, defs, None))
@@ -52,6 +61,9 @@ def run(tier, work):
             if stat_rows:
                 jobs.append({"files": {"t.rb": text}, "args": ["t.rb", "--define", "--row=%d" % stat_rows[0]]})
                 meta.append(("define-static", gi, style, [d for d in defs if d["static"]], None))
+            for (fname, fowner), frow in factory_rows.items():
+                jobs.append({"files": {"t.rb": text}, "args": ["t.rb", "--hover", "--row=%d" % frow]})
+                meta.append(("hover", gi, style + "/factory", defs, (fname, fowner)))
             oks = [e for e in exp if e[4]["k"] == "ok" and e[1] in ("inst", "static") and not e[4].get("attr")]
             for e in (oks if tier == "thorough" else oks[:3]):
                 owner = resolve_owner(gr, e)
@@ -134,7 +146,7 @@ def judge(kind, style, defs, extra, out):
     elif kind == "hover":
         name, owner = extra
         recs = [l for l in out.split("\n") if l.startswith("%")]
-        ok = any(l[1:].split(":::")[0] == name and ("%s.%s(" % (owner, name)) in l for l in recs)
+        ok = any(l[1:].split(":::")[0] == name and (("%s.%s(" % (owner, name)) if owner else (":::%s(" % name)) in l for l in recs)
         if not ok:
             bad.append(("hover:%s" % style, "hover shows %r, expected the signature of %s.%s" % (recs[:2], owner, name)))
     return bad
